@@ -774,6 +774,30 @@ func (p *asmProg) transfer(b int, in *AbsState, check bool) [][]*AbsState {
 func (p *asmProg) step(a *AbsState, ins *asmInstr, check bool) ([]*AbsState, error) {
 	one := []*AbsState{a}
 	args := ins.args
+	// conditional move: the state is split on the condition, as for a conditional jump over a MOVQ
+	if strings.HasPrefix(ins.op, "CMOVQ") && len(args) == 2 && args[1].kind == "reg" {
+		jop := "J" + strings.TrimPrefix(ins.op, "CMOVQ")
+		t := a.clone()
+		if _, ok := p.refine(t, jop, true); !ok {
+			return nil, fmt.Errorf("unknown instruction %s", ins.op)
+		}
+		p.refine(a, jop, false)
+		var outs []*AbsState
+		if t.st.feasible() {
+			v, err := p.read(t, ins, args[0], 8, check)
+			if err != nil {
+				return nil, err
+			}
+			if err := p.write(t, ins, args[1], v, 8, check); err != nil {
+				return nil, err
+			}
+			outs = append(outs, t)
+		}
+		if a.st.feasible() {
+			outs = append(outs, a)
+		}
+		return outs, nil
+	}
 	switch ins.op {
 	case "MOVQ":
 		v, err := p.read(a, ins, args[0], 8, check)
